@@ -39,7 +39,16 @@ func c18Resolve(c *c18Case, base string) (*stack.Snapshot, []fileTruth, []*stack
 	}
 	truths := c.L.truths(base)
 	if c.L.TestMain {
-		truths = append(truths, fileTruth{Remote: testMainPath, Loc: stack.Stdlib})
+		tm := testMainPath
+		switch {
+		case c.L.TestMainAt == 1 && len(c.L.Gopaths) > 0:
+			tm = c.L.Gopaths[0].Remote + "/src/example.com/p/_test/_testmain.go"
+		case c.L.TestMainAt == 2 && len(c.L.Modules) > 0:
+			tm = base + "/" + c.L.Modules[0].Dir + "/_test/_testmain.go"
+		case c.L.TestMainAt == 3 && c.L.GorootRemote != "":
+			tm = c.L.GorootRemote + "/src/fmt/_test/_testmain.go"
+		}
+		truths = append(truths, fileTruth{Remote: tm, Loc: stack.Stdlib, Testmain: true})
 	}
 	var refs []string
 	for _, t := range truths {
@@ -85,7 +94,7 @@ func c18Validity(snap *stack.Snapshot, base string, l *Layout, ts []fileTruth, c
 		} else if c.RelSrcPath != "" {
 			return fmt.Errorf("%s: relative path %q without a local path", where, c.RelSrcPath)
 		}
-		if ts[i].Remote == testMainPath {
+		if ts[i].Testmain {
 			if c.Location != stack.Stdlib {
 				return fmt.Errorf("%s: the go-test generated main must be standard library", where)
 			}
@@ -155,7 +164,7 @@ func c18Oracle(c c18Case) error {
 	st.class("unambiguous_layout_ground_truth", 1)
 	for i, call := range calls {
 		t := ts[i]
-		if t.Remote == testMainPath || !t.Known || !t.Present {
+		if t.Testmain || !t.Known || !t.Present {
 			continue
 		}
 		st.class("frames_checked_against_ground_truth", 1)
